@@ -7,7 +7,10 @@ import json
 import traceback
 from collections import OrderedDict
 
-PALETTE = ["s", "it's", 'dq"', 'back\\slash', 'ünï', '%s %%', '']
+PALETTE = ["s", "it's", 'dq"', 'back\\slash', 'ünï', '%s %%', '',
+           # a sentence: whatever the layout of the evolution file (statements of any length), the
+           # spaces inside a string literal are part of the value
+           'a rather long sentence, with commas and many  words in it, that goes on for more than eighty columns']
 
 
 def concretise(v, strs):
